@@ -200,6 +200,21 @@ func init() {
 		b, _ := e.Enforce("alice", "d", "read")
 		return !a || b, fmt.Sprintf("cached=%v after disable;RemovePolicy;enable=%v", a, b)
 	}
+	// D26: BuildRoleLinks did not invalidate the memoised g() results
+	witnesses["D26-buildrolelinks-stale"] = func() (bool, string) {
+		a := mem.New()
+		a.Lines = []mem.Line{{"p", []string{"admin", "d", "read"}}, {"g", []string{"alice", "admin"}}}
+		e, _ := casbin.NewEnforcer(mustModel(rbacText), a)
+		e.EnableAutoSave(false)
+		e.EnableAutoBuildRoleLinks(false)
+		e.RemoveGroupingPolicy("alice", "admin") // memory only
+		_ = e.LoadPolicy()                        // rules are back, links are not rebuilt
+		e.AddGroupingPolicy("bob", "admin")       // binds the role manager again
+		before, _ := e.Enforce("alice", "d", "read")
+		_ = e.BuildRoleLinks()
+		after, _ := e.Enforce("alice", "d", "read")
+		return !after, fmt.Sprintf("before BuildRoleLinks=%v after=%v (fresh enforcer: true)", before, after)
+	}
 	// D8: ClearPolicy kept role links
 	witnesses["D8-clearpolicy-links"] = func() (bool, string) {
 		e, _ := casbin.NewEnforcer(mustModel(rbacText))
